@@ -168,6 +168,11 @@ inductive Op where
   | msgBegin (name : Bytes) (mt : Nat) (seq : Int) | msgEnd
   deriving Repr, Inhabited
 
+/-- what the Rust argument types guarantee: a uuid is `[u8; 16]`. -/
+def Op.wf : Op → Bool
+  | .uuid bs => decide (bs.length = 16)
+  | _ => true
+
 mutual
 def TVal.ops : TVal → List Op
   | .bool b => [.bool b]
